@@ -196,7 +196,7 @@ def check_builtin(expr, text, val):
     return out
 
 
-def check_expr_mode(expr, mode, only=None):
+def check_expr_mode(expr, mode, only=None, no_messages=None):
     """format_constraint_evaluation through the library's shipped evaluators / user-style method based evaluators"""
     from mc import impl_modes as M
 
@@ -222,6 +222,18 @@ def check_expr_mode(expr, mode, only=None):
         elif (r[1].error_message is not None) != (not exp):
             out.append({"kind": "message-iff-unfulfilled/" + mode, "case": case, "expected": "message" if not exp else "no message",
                         "observed": r[1].error_message, "msg": f"{expr} under {val} through the {mode} evaluators"})
+        # the same with unfulfilled single constraints that carry NO message (what generate_possible_content_evaluation_results
+        # produces; the shipped evaluators pass them through): the Boolean value is still the documented one (the message clause
+        # has a premise that does not hold here and is not judged)
+        if not all(val.values()):
+            n += 1
+            r = I.try_call(lambda: M.run(mode, lambda: I.format_constraint_evaluation(expr), fc={k: (v, None) for k, v in val.items()}))
+            if r[0] == "exc":
+                out.append({"kind": "raised/" + mode, "case": dict(case, no_messages=True), "expected": exp, "observed": r[1], "msg": expr})
+            elif r[1].format_constraints_fulfilled is not exp:
+                out.append({"kind": "boolean-value/" + mode, "case": dict(case, no_messages=True), "expected": exp,
+                            "observed": r[1].format_constraints_fulfilled,
+                            "msg": f"{expr} under {val} (single constraints without messages) through the {mode} evaluators"})
     return out, n
 
 
